@@ -57,12 +57,21 @@ def labels_of(x):
     return tuple(map(repr, getattr(x, "oddpos", ())))
 
 
-def law_fused_pair(ch):
+def law_fused_pair(ch, many=False):
     """(a) contraction over several pairs == contraction of one fused pair"""
     ferm = ch.boolean("ferm")
-    pair = ch.draw(
-        gen.contraction_pairs(ferm=ferm, min_con=1,
-                              syms=gen.SYMS4 if ferm else ALLSYMS), "pair")
+    if many:
+        # many thin legs: 5-7 contracted pairs (sign rules that depend on the
+        # number of odd legs in a group only differ from simpler ones there)
+        pair = ch.draw(
+            gen.contraction_pairs(ferm=ferm, min_con=5, max_ndim=8,
+                                  ncon_choices=(5, 6, 6, 7, 7), max_size=1,
+                                  max_charges=2, keep_full=1.0,
+                                  syms=("Z2", "U1")), "pair")
+    else:
+        pair = ch.draw(
+            gen.contraction_pairs(ferm=ferm, min_con=1,
+                                  syms=gen.SYMS4 if ferm else ALLSYMS), "pair")
     a, b = gen.build(pair["a"]), gen.build(pair["b"])
     A, B = list(pair["axes_a"]), list(pair["axes_b"])
     mode = ch.choice(["fused", "blockwise", "auto"], "mode")
@@ -255,6 +264,9 @@ LAWS = [
     Law("fused_pair", law_fused_pair, quick=2400, thorough=40000,
         doc="contract listed pairs == align, fuse contracted legs, contract "
             "one pair"),
+    Law("fused_pair_many_legs", lambda ch: law_fused_pair(ch, many=True),
+        quick=300, thorough=4000,
+        doc="the same with 5-7 thin contracted legs per operand"),
     Law("free_group", law_free_group, quick=1600, thorough=24000,
         doc="fuse free legs then contract == contract then fuse the "
             "corresponding result legs (element by element)"),
